@@ -199,8 +199,13 @@ def check(prop, tier):
             f = o["fail"]
             key = {"cls": cfg.cls, "code": f["code"]}
             name = f"{cfg.cls}_{f['code']}"
+            gk = D.group_key(cfg)
             payload = {"property": prop, "kind": "stream",
-                       "config": cfg.as_json(), "failure": f}
+                       "config": cfg.as_json(), "failure": f,
+                       # the siblings driven by the same worker, in order (a
+                       # failure may depend on what was built before)
+                       "group": [c.as_json() for c in cfgs
+                                 if D.group_key(c) == gk]}
             # replay file only for the first occurrence of each key
             if common.match_known(prop, key) is None:
                 rp = common.write_replay(prop, name, payload) \
@@ -279,4 +284,26 @@ def replay(prop, payload):
     if fails:
         print(f"VIOLATION property={prop} replay=(replayed)")
         return 1
+    group = [D.Config.from_json(c) for c in payload.get("group", [])]
+    if len(group) > 1:
+        # not reproduced alone: drive the sibling group as the check did
+        # (forward, reverse, twin order) in this one process
+        idxs = list(range(len(group)))
+        order = idxs + idxs[::-1] + D.twin_order(group, idxs)
+        for n, i in enumerate(order):
+            run = D.drive(group[i])
+            if group[i].key() != cfg.key():
+                continue
+            fails = [f for f in run.all_failures() if prop in f.props]
+            if fails:
+                prev = [repr(group[j]) for j in order[max(0, n - 3):n]]
+                print(f"replay {cfg!r} as member {n} of its sibling group "
+                      f"(directly after {prev}): {len(fails)} failure(s) "
+                      f"tagged {prop}")
+                for f in fails[:5]:
+                    print(f"  [{f.code}] {f.msg} at action {f.index} "
+                          f"{f.action}")
+                print(f"VIOLATION property={prop} replay=(replayed)")
+                return 1
+        print("sibling group replayed without a failure")
     return 0
